@@ -202,6 +202,10 @@ def flatten(items):
                 elif s["t"] == "C":
                     s["ckey"] = s["ckey"][:-1] + (km.get(s["ckey"][-1], s["ckey"][-1]),)
             ids = _effective_ids(it) if has_meas else None
+            # Scoping is static: a control that is not bound inside the body can only bind to keys measured
+            # *before this block* in the enclosing body (the block's extern keys), never to a measurement made
+            # by an earlier repetition of the same block.
+            measured_before_block = set(measured)
             for i in range(abs(reps)):
                 prefix = (ids[i],) if ids is not None else ()
                 for s in mapped:
@@ -213,7 +217,7 @@ def flatten(items):
                         if s["bound"]:
                             s["ckey"] = prefix + s["ckey"]
                         else:
-                            s["bound"] = s["ckey"] in measured
+                            s["bound"] = s["ckey"] in measured_before_block
                     out.append(s)
         else:
             raise ValueError(t)
